@@ -65,9 +65,17 @@ pub fn exec(input: &str, outdir: &Path, cfg: &CtrCfg, s: &Sched) -> CtrOut {
         ctr.set_max_memory(cfg.mem_gb);
         ctr.set_acgt_output(cfg.acgt);
         ctr.count();
+        if extra % 2 == 1 {
+            // the object asked to count once more: its input is used up, nothing may be added
+            ctr.count();
+        }
         mid = listing(outdir);
         let mut first: Option<Vec<String>> = None;
         for j in 0..extra {
+            if j == 1 && extra % 3 == 1 {
+                // ... and once more between two merges
+                ctr.count();
+            }
             ctr.merge(false);
             let text = std::fs::read_to_string(outdir.join("kmers.counts")).unwrap_or_default();
             let mut lines: Vec<String> = text.lines().map(|l| l.to_string()).collect();
@@ -226,6 +234,7 @@ pub fn check_case(c: &Case) -> Verdict {
     }
     EXTRA_MERGES.with(|e| e.set(if c.decoys { 0 } else { c.extra_merges as usize }));
     v.class_if(c.extra_merges > 0 && !c.decoys, "merged-several-times");
+    v.class_if(!c.decoys && (c.extra_merges % 2 == 1 || (c.extra_merges > 1 && c.extra_merges % 3 == 1)), "counted-again-on-the-same-object");
     let mut o = exec(&io::path_str(&input), &outdir, &cfg, &c.sched);
     if c.decoys {
         // chunk/partition numbers are read from the temp files present after counting: not meaningful with decoys;
